@@ -1,6 +1,8 @@
 package verifsim
 
 import (
+	"crypto"
+	"crypto/ed25519"
 	"crypto/x509"
 	"encoding/base64"
 	"encoding/pem"
@@ -71,7 +73,10 @@ func runC16(rc *RunCtx) {
 	autoRebuild := tp.Pick(4) == 3
 	faulty := tp.Pick(3) == 2
 	nIssuers := 1 + tp.Pick(2)
-	keyType := []string{"ec", "ed25519"}[tp.Pick(2)]
+	// (OCSP is unavailable for Ed25519 issuers: x/crypto/ocsp cannot sign with
+	// them and the responder answers "internal error" - status API and CRL are
+	// what is judged there; EC P-256 / P-384 issuers carry the OCSP clause)
+	keyType := []string{"ec", "ec", "ed25519", "ec384"}[tp.Pick(4)]
 	rc.Cfg("cache_off", opts.DisableCache)
 	rc.Cfg("plain_disk", opts.Plain)
 	rc.Cfg("auto_rebuild", autoRebuild)
@@ -88,6 +93,9 @@ func runC16(rc *RunCtx) {
 	kb := 256
 	if keyType == "ed25519" {
 		kb = 0
+	}
+	if keyType == "ec384" {
+		keyType, kb = "ec", 384
 	}
 	var issuers []*pkiIssuer
 	for i := 0; i < nIssuers; i++ {
@@ -178,17 +186,45 @@ func runC16(rc *RunCtx) {
 			l.revTime = rt
 		}
 		// OCSP
-		if oreq, err := ocsp.CreateRequest(l.cert, l.issuer.cert, nil); err == nil {
+		// (the CertID hash is the client's choice: SHA-1 is what most clients
+		// send, the responder also accepts the SHA-2 family; drawn per query, so
+		// one issuer is asked with different algorithms during one backend lifetime)
+		ohash := []crypto.Hash{crypto.SHA1, crypto.SHA256, crypto.SHA1, crypto.SHA384, crypto.SHA512, crypto.SHA256}[tp.Pick(6)]
+		if oreq, err := ocsp.CreateRequest(l.cert, l.issuer.cert, &ocsp.RequestOptions{Hash: ohash}); err == nil {
 			resp, err := hh.Do("ocsp", Req{Op: logical.ReadOperation, Path: "pki/ocsp/" + base64.StdEncoding.EncodeToString(oreq)})
 			if err == nil && resp != nil {
 				if raw, ok := resp.Data[logical.HTTPRawBody].([]byte); ok && len(raw) > 0 {
 					or, perr := ocsp.ParseResponse(raw, l.issuer.cert)
+					if perr != nil {
+						// x/crypto/ocsp cannot check an Ed25519 signature: parse without
+						// the issuer and check the signature here
+						if pub, isEd := l.issuer.cert.PublicKey.(ed25519.PublicKey); isEd {
+							if or2, perr2 := ocsp.ParseResponse(raw, nil); perr2 == nil {
+								if ed25519.Verify(pub, or2.TBSResponseData, or2.Signature) {
+									or, perr = or2, nil
+								} else {
+									s.Probe("ocsp_ed25519_signature_by_other_key")
+								}
+							}
+						}
+					}
 					if perr == nil && or.Status != ocsp.Revoked {
 						viol("ocsp-not-revoked", map[string]any{"phase": phase}, "%s: OCSP reports status %d for revoked serial %s", phase, or.Status, l.serial)
 						return false
 					}
 					if perr == nil {
 						s.Probe("ocsp_checked")
+					} else {
+						s.Probe("ocsp_response_not_parsable")
+						e := perr.Error()
+						if _, isEd := l.issuer.cert.PublicKey.(ed25519.PublicKey); isEd && strings.Contains(e, "internal error") {
+							s.Probe("ocsp_unavailable_for_ed25519_issuer")
+						} else if s.Faults["err-na"] == 0 {
+							// a responder that cannot answer for a revoked serial of an
+							// EC issuer, with no storage fault in the run
+							viol("ocsp-not-revoked", map[string]any{"phase": phase, "error_response": true}, "%s: OCSP answers %q for revoked serial %s of an EC issuer", phase, e, l.serial)
+							return false
+						}
 					}
 				}
 			}
